@@ -6,9 +6,9 @@
    checked stand-alone. *)
 EXTENDS Integers
 Kinds == <<"num", "str", "bool", "list", "nil", "map">>
-KR == [num  |-> [num |-> 0, str |-> -1, bool |-> 1, list |-> -1, nil |-> 1, map |-> -1],
-       str  |-> [num |-> 1, str |-> 0, bool |-> 1, list |-> -1, nil |-> 1, map |-> -1],
-       bool |-> [num |-> -1, str |-> -1, bool |-> 0, list |-> -1, nil |-> 1, map |-> -1],
+KR == [num  |-> [num |-> 0, str |-> 1, bool |-> -1, list |-> -1, nil |-> 1, map |-> -1],
+       str  |-> [num |-> -1, str |-> 0, bool |-> -1, list |-> -1, nil |-> 1, map |-> -1],
+       bool |-> [num |-> 1, str |-> 1, bool |-> 0, list |-> -1, nil |-> 1, map |-> -1],
        list |-> [num |-> 1, str |-> 1, bool |-> 1, list |-> 0, nil |-> 1, map |-> 1],
        nil  |-> [num |-> -1, str |-> -1, bool |-> -1, list |-> -1, nil |-> 0, map |-> -1],
        map  |-> [num |-> 1, str |-> 1, bool |-> 1, list |-> -1, nil |-> 1, map |-> 0]]
